@@ -42,11 +42,63 @@ def budget(tier: str) -> dict:
     return {"examples": 50000 if tier == "quick" else 1500000}
 
 
+# backtick strings of several lengths next to link/image brackets: the inline parser visits link text twice (once to
+# find the end of the label, once to tokenize it) and keeps a cache of backtick strings between the two visits
+BT_ALPHA = ["`", "``", "```", " ", "a", "[", "](u)", "<", "\\", "!["]
+_ENUM_MD: dict = {}
+
+
+def enumerate_cases(tier: str, shard: int, nshards: int):
+    import itertools
+
+    alpha = BT_ALPHA[:9] if tier == "quick" else BT_ALPHA
+    maxn = 6 if tier == "quick" else 7
+    idx = 0
+    for n in range(1, maxn + 1):
+        for toks in itertools.product(alpha, repeat=n):
+            idx += 1
+            if idx % nshards != shard:
+                continue
+            if "`" not in toks and "``" not in toks and "```" not in toks:
+                continue
+            yield {"kind": "enum-backticks", "src": "".join(toks), "cfgi": 0}
+
+
+def backtick_scenario(d) -> str:
+    """Link/image text holding matched code spans and unmatched backtick strings of lengths 1..3, followed by more
+    backtick strings after the link: the shape in which the two visits of link text can disagree."""
+
+    def run(n):
+        return "`" * n
+
+    def filler():
+        return d.pick([" ", "a", " a ", "<", "x ", "\\", "\n"])
+
+    def item():
+        k = d.i(0, 19)
+        if k < 9:
+            n = d.i(1, 3)
+            inner = filler() + "".join(run(d.pick([m for m in (1, 2, 3) if m != n])) + filler() for _ in range(d.i(0, 2)))
+            return run(n) + inner + run(n)
+        if k < 16:
+            return run(d.i(1, 3))
+        return filler()
+
+    label = filler().join(item() for _ in range(d.i(1, 4)))
+    tail = filler().join(item() for _ in range(d.i(0, 3)))
+    opener = d.pick(["[", "[", "![", "", "[x]: /u\n\n[", "*[", "> ["])
+    if opener:
+        return opener + label + d.pick(["](u)", "]()", "](u) ", "][x]", "]"]) + tail
+    return label + " " + tail
+
+
 @st.composite
 def _case(draw):
     d = gen.D(draw)
-    k = d.i(0, 9)
-    if k < 2:
+    k = d.i(0, 11)
+    if k >= 10:
+        src = backtick_scenario(d)
+    elif k < 2:
         parts = [d.pick(SPANS) if d.chance(0.6) else gen.word(d) for _ in range(d.i(1, 4))]
         src = d.pick(["", "", "> ", "- ", "# ", "![", "[", "| "]) + d.pick(["", " ", "x"]).join(parts)
         if src.startswith("!["):
@@ -412,7 +464,10 @@ def check_tokens(src: str, tokens, res: Res, stats: dict) -> None:
 
 def check(case) -> Res:
     res = Res()
-    md = C.build(case["cfg"])
+    if "cfgi" in case:
+        md = _ENUM_MD.get(case["cfgi"]) or _ENUM_MD.setdefault(case["cfgi"], C.build(FIXED_CFGS[case["cfgi"]]))
+    else:
+        md = C.build(case["cfg"])
     toks = md.parse(case["src"])
     stats: dict = {}
     check_tokens(case["src"], toks, res, stats)
